@@ -9,7 +9,15 @@ pub fn padded(s: &str, width: usize, align: u8, truncate: bool) -> String {
         1 => Alignment::Center,
         _ => Alignment::Right,
     };
-    format!("{}", PaddedStringDisplay { str: s, width, align, truncate })
+    format!(
+        "{}",
+        PaddedStringDisplay {
+            str: s,
+            width,
+            align,
+            truncate
+        }
+    )
 }
 pub fn text_cols(s: &str) -> usize {
     measure_text_width(s)
@@ -26,8 +34,18 @@ pub struct Frame {
     pub duration: std::time::Duration,
 }
 #[allow(clippy::too_many_arguments)]
-pub fn frame(style: &ProgressStyle, len: Option<u64>, pos: u64, msg: &str, prefix: &str, tick: u64, status: u8, width: u16) -> Frame {
-    let st = crate::state::verif_hooks::mk_state(len, pos, msg, prefix, tick, status, style.tab_width);
+pub fn frame(
+    style: &ProgressStyle,
+    len: Option<u64>,
+    pos: u64,
+    msg: &str,
+    prefix: &str,
+    tick: u64,
+    status: u8,
+    width: u16,
+) -> Frame {
+    let st =
+        crate::state::verif_hooks::mk_state(len, pos, msg, prefix, tick, status, style.tab_width);
     let mut lines = Vec::new();
     style.format_state(&st, &mut lines, width);
     let lines = lines
@@ -38,5 +56,12 @@ pub fn frame(style: &ProgressStyle, len: Option<u64>, pos: u64, msg: &str, prefi
             crate::draw_target::LineType::Empty => (false, String::new()),
         })
         .collect();
-    Frame { lines, fraction: st.fraction(), per_sec: st.per_sec(), elapsed: st.elapsed(), eta: st.eta(), duration: st.duration() }
+    Frame {
+        lines,
+        fraction: st.fraction(),
+        per_sec: st.per_sec(),
+        elapsed: st.elapsed(),
+        eta: st.eta(),
+        duration: st.duration(),
+    }
 }
